@@ -8,6 +8,7 @@ Require Import Bits.Lib.Result Bits.Lib.Bytes Bits.Lib.CompactSize Bits.Spec.P2p
 Require Import Bits.Model.CompactSize Bits.Model.P2pFrame Bits.Model.P2pCodec.
 Require Import Bits.Proofs.P2pFrame Bits.Proofs.P2pCodec Bits.Proofs.P2pCodec2.
 Require Import Bits.Spec.P2pNet Bits.Model.P2pSession Bits.Proofs.P2pSession.
+Require Import Bits.Model.P2pTables Bits.Proofs.P2pTables.
 Import ListNotations.
 Local Open Scope Z_scope.
 
@@ -263,6 +264,42 @@ Theorem C17_codec_roundtrip_addr :
 Proof. exact codec_roundtrip_addr. Qed.
 Print Assumptions C17_codec_roundtrip_addr.
 
+(* ---------------------------------------------------------------------------------- tables read at call time *)
+(* INVENTORY_TYPE_ID and COMMANDS are read when the codecs are CALLED, so entries registered after import take part.
+   The table-parametrised functions are the fixed-table ones at the reference tables ... *)
+Theorem C17_tables_reference :
+  (forall t h, inventory_in inventory_type_id t h = inventory t h) /\
+  (forall b, parse_inventory_in inventory_type_id b = parse_inventory b) /\
+  (forall p, parse_inv_payload_in inventory_type_id p = parse_inv_payload p) /\
+  (forall sha m c p, msg_ser_in sha commands m c p = msg_ser sha m c p) /\
+  table_okb inventory_type_id = true.
+Proof.
+  exact (conj inventory_in_ref (conj parse_inventory_in_ref (conj parse_inv_payload_in_ref
+        (conj msg_ser_in_ref reference_table_ok)))).
+Qed.
+Print Assumptions C17_tables_reference.
+
+(* ... and for EVERY usable inventory table (upper-case names, 32-bit values, no value shared by two names) every
+   type the table lets one build is parsed back to the values it was built from *)
+Theorem C17_codec_roundtrip_inv_any_table :
+  forall tbl, table_okb tbl = true ->
+  forall items, Forall (inv_item_ok_in tbl) items -> Z.of_nat (length items) < 2 ^ 64 ->
+  exists sers p, mapM (inv_ser_in tbl) items = Ok sers /\ inv_payload (Z.of_nat (length items)) sers = Ok p /\
+    parse_inv_payload_in tbl p = Ok (Z.of_nat (length items), items).
+Proof. exact codec_roundtrip_inv_in. Qed.
+Print Assumptions C17_codec_roundtrip_inv_any_table.
+
+(* every command present in COMMANDS at the time of the call that fits the 12-byte field is framed and received *)
+Theorem C17_frame_any_command_table :
+  forall (sha256 : bytes -> bytes), (forall m, length (sha256 m) = 32%nat) ->
+  forall cmds magic c p rest sch fuel,
+    length magic = 4%nat -> In c cmds -> cmd_ok c -> zlen p <= max_size ->
+    pos_sched sch -> (24 + length p <= fuel)%nat ->
+    exists fr sch' f', msg_ser_in sha256 cmds magic c p = Ok fr /\
+      recv_msg sha256 fuel magic (fr ++ rest, sch) = Ok ((magic, c, p), (rest, sch'), f').
+Proof. exact frame_any_fragmentation_in. Qed.
+Print Assumptions C17_frame_any_command_table.
+
 (* ---------------------------------------------------------------------------------- non-vacuity / vectors *)
 Import Coq.Init.Byte.
 
@@ -346,3 +383,11 @@ Example C17_ex_session :
   | Err _ => False
   end.
 Proof. vm_compute. reflexivity. Qed.
+
+(* BIP339's MSG_WTX = 5 registered after import: usable table, built and parsed back *)
+Example C17_ex_registered_type :
+  let tbl := inventory_type_id ++ [([x4d;x53;x47;x5f;x57;x54;x58], 5)] in
+  table_okb tbl = true /\
+  bind (inventory_in tbl [x6d;x73;x67;x5f;x77;x74;x78] (repeat x33 32)) (parse_inventory_in tbl)
+  = Ok ([x4d;x53;x47;x5f;x57;x54;x58], repeat x33 32).
+Proof. vm_compute. split; reflexivity. Qed.
